@@ -19,6 +19,7 @@ import (
 	"go/token"
 	"go/types"
 	"math"
+	"os"
 	"strings"
 
 	"golang.org/x/tools/go/ssa"
@@ -167,6 +168,7 @@ type simCtx struct {
 	depth      int
 	phiBusy    map[*ssa.Phi]bool
 	lookupBusy bool
+	chainDepth int
 	litLoop    *sliceRange             // loop over a list literal that contains the subject: its element stands for the subject
 	boolParams map[*ssa.Parameter]bool // bool parameters whose value is a constant at the call site
 }
@@ -1174,7 +1176,14 @@ func (c *simCtx) boolResultOf(call *ssa.Call, idx int) (bool, bool) {
 			}
 		}
 	}
+	// the helper is evaluated for the VALUE of its result: "assume that unreadable
+	// validations reject" has no meaning inside it (for a predicate such as negative(x),
+	// true is the rejecting answer); the caller's own test of the result is what the
+	// second pass assumes about
+	saved := c.e.assumeReject
+	c.e.assumeReject = false
 	reach := sub.explore(g.Blocks[0], nil)
+	c.e.assumeReject = saved
 	var val, have bool
 	for _, r := range returnsOf(g) {
 		if !reach[r.Block()] || idx >= len(r.Results) {
@@ -1399,11 +1408,34 @@ func (c *simCtx) explore(start *ssa.BasicBlock, stop map[*ssa.BasicBlock]bool) m
 				}
 			}
 		}
+		// the same list traversed by a counted loop
+		instrs(c.f, func(in ssa.Instruction) {
+			call, ok := in.(*ssa.Call)
+			if !ok || calleeOf(call) != c.sc.NonEmptyFn {
+				return
+			}
+			if ex := extractOf(call, 0); ex != nil {
+				for hdr, done := range countedLoopsOver(c.f, ex) {
+					blocked[hdr] = done
+				}
+			}
+		})
 	}
 	if c.sc.NonEmpty > 0 && c.sc.NonEmpty-1 < len(c.f.Params) {
+		// counted loops over the non-empty list: for i := 0; i < len(list); i++
+		for hdr, done := range countedLoopsOver(c.f, c.f.Params[c.sc.NonEmpty-1]) {
+			blocked[hdr] = done
+		}
 		for _, sr := range findSliceRanges(c.f) {
 			if resolve(sr.X) == ssa.Value(c.f.Params[c.sc.NonEmpty-1]) {
 				blocked[sr.Header] = sr.Done
+				continue
+			}
+			// a list built one element per element of the non-empty list (pre-parsed copies)
+			if _, isParam := resolve(sr.X).(*ssa.Parameter); !isParam {
+				if src, st, _, _ := mapChain(c.e.w, c.f, sr.X, 0); st == Discharged && resolve(src) == ssa.Value(c.f.Params[c.sc.NonEmpty-1]) {
+					blocked[sr.Header] = sr.Done
+				}
 			}
 		}
 	}
@@ -1423,6 +1455,10 @@ func (c *simCtx) explore(start *ssa.BasicBlock, stop map[*ssa.BasicBlock]bool) m
 			}
 			seen[b] = true
 			t, f, i := ifSuccs(b)
+			if i != nil && os.Getenv("SID_DEBUG_SC") != "" && strings.Contains(c.f.Name(), os.Getenv("SID_DEBUG_SC")) {
+				o, k := c.oracle(i.Cond)
+				fmt.Fprintf(os.Stderr, "SC %s blk %d %s: oracle=%v/%v mentions=%v evaluable=%v failing=%d assumeReject=%v\n", c.f.Name(), b.Index, shortInstr(i), o, k, c.mentionsSubject(i.Cond, 0), c.evaluable(i.Cond), len(c.failingSides(b)), c.e.assumeReject)
+			}
 			if i != nil {
 				if out, known := c.oracle(i.Cond); known {
 					if out {
@@ -1629,6 +1665,21 @@ func (c *simCtx) mentionsSubject(v ssa.Value, depth int) bool {
 	if c.isSubject(v) || c.textOfSubject(v) || c.isSubjectList(v) || c.splitOfSubject(v) {
 		return true
 	}
+	// the subject travels inside a struct parameter: the whole struct mentions it
+	if !c.sc.Elem && c.sc.SField > 0 && c.sc.Param < len(c.f.Params) {
+		p := ssa.Value(c.f.Params[c.sc.Param])
+		rv := resolve(v)
+		if rv == p {
+			return true
+		}
+		if ld, ok := loadOf(rv); ok {
+			if al, ok := ld.(*ssa.Alloc); ok {
+				if sv := singleStore2(al); sv != nil && sv == p {
+					return true
+				}
+			}
+		}
+	}
 	if c.sc.Kind == scPairRel && c.sc.Acc == nil {
 		for _, pi := range []int{c.sc.Param, c.sc.Param2} {
 			if pi < len(c.f.Params) && resolve(v) == ssa.Value(c.f.Params[pi]) {
@@ -1727,12 +1778,43 @@ func (c *simCtx) failingSides(b *ssa.BasicBlock) []*ssa.BasicBlock {
 			if reach[ret.Block()] {
 				any = true
 				if !c.e.isFailureReturn(c.f, ret) {
+					// a return whose error operand cannot be classified (return err == nil, err) is
+					// not a definite success either
+					if errResultIndex(c.f) >= 0 && c.e.failConst[c.f] == nil && classifyReturn(c.f, ret) == retUnknown {
+						continue
+					}
 					all = false
 				}
 			}
 		}
 		if any && all {
 			out = append(out, s)
+		}
+	}
+	if len(out) > 0 {
+		return out
+	}
+	// a chain of tests (switch { case a(x): ..; case b(x): ..; default: fail }): the side that
+	// leads straight to the next unreadable test of the subject, which in turn has a
+	// failing side, is the side "towards rejection"
+	if c.chainDepth < 4 {
+		for _, s := range b.Succs {
+			_, _, ifi := ifSuccs(s)
+			if ifi == nil || s == b || len(s.Preds) != 1 {
+				continue
+			}
+			if !c.mentionsSubject(ifi.Cond, 0) || c.evaluable(ifi.Cond) {
+				continue
+			}
+			if _, known := c.oracle(ifi.Cond); known {
+				continue
+			}
+			c.chainDepth++
+			next := c.failingSides(s)
+			c.chainDepth--
+			if len(next) > 0 {
+				out = append(out, s)
+			}
 		}
 	}
 	return out
@@ -1973,4 +2055,38 @@ func indexedAccess(g *ssa.Function, param int) string {
 		}
 	}
 	return ""
+}
+
+// countedLoopsOver: loop headers of the form `i < len(list)` with i a counter
+// that starts at the constant 0; maps the header to its exit successor.
+func countedLoopsOver(f *ssa.Function, list ssa.Value) map[*ssa.BasicBlock]*ssa.BasicBlock {
+	out := map[*ssa.BasicBlock]*ssa.BasicBlock{}
+	for _, blk := range f.Blocks {
+		_, fl, ifi := ifSuccs(blk)
+		if ifi == nil {
+			continue
+		}
+		cmp, ok := ifi.Cond.(*ssa.BinOp)
+		if !ok || cmp.Op != token.LSS {
+			continue
+		}
+		lc, ok := resolve(cmp.Y).(*ssa.Call)
+		if !ok || builtinName(lc) != "len" || resolve(lc.Call.Args[0]) != resolve(list) {
+			continue
+		}
+		phi, ok := cmp.X.(*ssa.Phi)
+		if !ok || phi.Block() != blk {
+			continue
+		}
+		zero := false
+		for i, e := range phi.Edges {
+			if k, isK := constInt(e); isK && k == 0 && !blk.Dominates(blk.Preds[i]) {
+				zero = true
+			}
+		}
+		if zero {
+			out[blk] = fl
+		}
+	}
+	return out
 }
